@@ -50,7 +50,7 @@ ASSUMPTIONS = [
 ]
 STUBS = ["sympy (parse_expr, simplify, lambdify) runs concretely per program; only its output function runs on symbols", "numba function = python source of the generated function (NUMBA_DISABLE_JIT=1); replays use the JIT build"]
 OUTSIDE = ["text outside the grammar", "array-valued constants beyond 1-d", "arguments where the formula is ill-conditioned (near poles / branch points)"]
-BOUNDS = {"max_paths": 400, "tmax": 900.0, "query_timeout_ms": 5000, "path_timeout": 600.0}
+BOUNDS = {"max_paths": 400, "tmax": 900.0, "query_timeout_ms": 8000, "path_timeout": 600.0}
 EXPLANATION = "translation validation per program: compiled callable vs independent AST evaluator on symbolic arguments"
 SC = 4096
 
